@@ -87,7 +87,14 @@ POSIX = ["EST5EDT", "AAA3BBB,M3.2.0/2,M11.1.0/2", "XYZ-9", "UTC+3",
          "GMT-2", "CET-1CEST,M3.5.0,M10.5.0/3"]
 OTHER = ["UTC", "GMT", "Nowhere/None", "abc", "EST", "EDT", "CET", ":Zone/F0",
          ZW.ZI1 + "/Zone/F1", "/sim/nowhere", "12bad", None, ""]
-TZ_SETTINGS = [None, "EST5EDT", "CET-1CEST", "UTC"]
+# Every daylight-saving setting carries explicit rules: for a TZ string
+# without them glibc borrows the rules of its "posixrules" file, and under
+# that fallback localtime() is not a function of (TZ, instant) -- after a
+# mktime() call the same instant is reported with the other offset (checked
+# with the time module alone, no dateutil involved). Such settings would make
+# any history-independence oracle report libc, not dateutil.
+TZ_SETTINGS = [None, "EST5EDT,M3.2.0,M11.1.0", "CET-1CEST,M3.5.0,M10.5.0/3",
+               "UTC"]
 
 OFF_NAMES = ["A", "B", None]
 OFFSETS = [0, 3600, -18000, 19800, 1, -86399]
